@@ -18,6 +18,9 @@ type Builder struct {
 	responseStreams map[graphsync.RequestID]io.Closer
 	subscribers     map[graphsync.RequestID]notifications.Subscriber
 	blockData       map[graphsync.RequestID][]graphsync.BlockData
+	// reserved is the memory reserved from the allocator for the data queued
+	// in this message that has not been handed back yet
+	reserved uint64
 }
 
 // NewBuilder sets up a new builder for the given topic
@@ -58,7 +61,13 @@ func (b *Builder) ScrubResponses(requestIDs []graphsync.RequestID) uint64 {
 		delete(b.subscribers, requestID)
 		delete(b.blockData, requestID)
 	}
-	return b.Builder.ScrubResponses(requestIDs)
+	freed := b.Builder.ScrubResponses(requestIDs)
+	if b.Empty() || freed > b.reserved {
+		// nothing left to send: everything still reserved can be handed back
+		freed = b.reserved
+	}
+	b.reserved -= freed
+	return freed
 }
 
 // ResponseStreams inspect current response stream state
@@ -91,7 +100,7 @@ func (b *Builder) build(publisher notifications.Publisher) (gsmsg.GraphSyncMessa
 		},
 		ctx:             b.ctx,
 		topic:           b.topic,
-		msgSize:         b.BlockSize(),
+		msgSize:         b.reserved,
 		responseStreams: b.responseStreams,
 	}, nil
 }
